@@ -11,7 +11,7 @@ import ast
 from .core import Unsupported, find_def
 from .driver_py import COQTY, V, dotted
 from .stops_py import STr
-from .lazy import Inliner, normalise
+from .lazy import Inliner, canon, normalise
 
 OUTPUTS = ["GenFilters.v"]
 SRC = "pyhms/sprout/sprout_filters.py"
@@ -207,7 +207,8 @@ class FTr(STr):
         if d == "DemeCandidates" and not e.args and {k.arg for k in e.keywords} == {"individuals", "features"}:
             kw = {k.arg: k.value for k in e.keywords}
             inds = self._expr(kw["individuals"], env, pre)
-            if inds.ty == "inds" and self.opaque_ok_features(kw["features"]):
+            feat_ok = self.opaque_ok_features(kw["features"]) or (isinstance(kw["features"], ast.Name) and isinstance(env.get(kw["features"].id), V) and env[kw["features"].id].ty == "features")
+            if inds.ty == "inds" and feat_ok:
                 return V(inds.code, "cands")
             self.bad(e, "DemeCandidates arguments")
         if d == "NearestBetterClustering" and len(e.args) == 3:
@@ -301,6 +302,11 @@ class FTr(STr):
                     env[nm] = V(new, "cmap")
                     return " ".join(pre + p2) + f" let {new} := cm_add {cm.code} {key.code} {val.code} in\n  " + go(env)
                 self.bad(s, "new candidate entry")
+            if isinstance(t, ast.Name) and isinstance(s.value, ast.Call) and dotted(s.value.func) == "DemeFeatures" and self.opaque_ok_features(s.value) \
+                    and all(isinstance(env.get(n.id), V) and env[n.id].ty in ("nbcobj", "opaque") for n in ast.walk(s.value) if isinstance(n, ast.Name) and n.id not in ("np", "DemeFeatures")):
+                env2 = dict(env)
+                env2[t.id] = V("", "features")       # a DemeFeatures object held in a temporary
+                return go(env2)
             if isinstance(t, ast.Name) and isinstance(s.value, ast.Call) and dotted(s.value.func) == "np.mean" and self.opaque_ok_features(s.value) \
                     and all(isinstance(env.get(n.id), V) and env[n.id].ty == "nbcobj" for n in ast.walk(s.value) if isinstance(n, ast.Name) and n.id != "np"):
                 env2 = dict(env)
@@ -440,21 +446,26 @@ def translate_generators(repo):
 MSRC = "pyhms/sprout/sprout_mechanisms.py"
 
 
+def _only_looks(e):
+    """an expression that only reads the candidates: names, attributes, dict comprehensions over candidates.items(), copy.deepcopy of such"""
+    for n in ast.walk(e):
+        if isinstance(n, ast.Call) and dotted(n.func) not in ("candidates.items", "copy.deepcopy", "deepcopy"):
+            return False
+        if isinstance(n, (ast.NamedExpr, ast.Lambda, ast.Await, ast.Yield, ast.YieldFrom)):
+            return False
+    return True
+
+
 def _is_bookkeeping(stmt):
-    if isinstance(stmt, ast.Assign) and len(stmt.targets) == 1 and isinstance(stmt.targets[0], ast.Name) and isinstance(stmt.value, ast.Call) \
-            and dotted(stmt.value.func) == "copy.deepcopy" and len(stmt.value.args) == 1 and isinstance(stmt.value.args[0], ast.DictComp):
-        dc0 = stmt.value.args[0]
-        if not any(isinstance(n, ast.Call) and dotted(n.func) != "candidates.items" for n in ast.walk(dc0)):
-            return True
-    """statements of SproutMechanism.get_seeds that only feed the plotting history (deep copies of {deme.id: candidates} appended to
+    """statements of SproutMechanism.get_seeds that only feed the plotting history (copies of {deme.id: candidates} appended to
     self._generated/_used..._history): no effect on the candidates or on modelled state"""
-    if isinstance(stmt, ast.Assign) and len(stmt.targets) == 1 and isinstance(stmt.targets[0], ast.Name) and isinstance(stmt.value, ast.Call) \
-            and dotted(stmt.value.func) == "copy.deepcopy" and len(stmt.value.args) == 1 and isinstance(stmt.value.args[0], ast.DictComp):
-        dc = stmt.value.args[0]
-        return not any(isinstance(n, ast.Call) and dotted(n.func) != "candidates.items" for n in ast.walk(dc))
+    if isinstance(stmt, (ast.Assign, ast.AnnAssign)) and stmt.value is not None:
+        t = stmt.targets[0] if isinstance(stmt, ast.Assign) and len(stmt.targets) == 1 else (stmt.target if isinstance(stmt, ast.AnnAssign) else None)
+        if isinstance(t, ast.Name) and t.id != "candidates" and _only_looks(stmt.value) and isinstance(stmt.value, (ast.Call, ast.DictComp)):
+            return True
     if isinstance(stmt, ast.Expr) and isinstance(stmt.value, ast.Call) and isinstance(stmt.value.func, ast.Attribute) and stmt.value.func.attr == "append":
         d = dotted(stmt.value.func.value)
-        return d is not None and d.startswith("self._") and d.endswith("_history") and len(stmt.value.args) == 1 and isinstance(stmt.value.args[0], ast.Name)
+        return d is not None and d.startswith("self._") and d.endswith("_history") and len(stmt.value.args) == 1 and _only_looks(stmt.value.args[0])
     return False
 
 
@@ -476,23 +487,43 @@ def translate_mechanism(repo):
         if not ok:
             raise Unsupported(f"{MSRC}:{fn.lineno}: SproutMechanism.{meth} is not `for f in self.{chain}: candidates = f(candidates, tree)` followed by `return candidates`")
         out.append(f"Definition gen_{meth} ({chain} : list F) (v_candidates : cmap) : D cmap :=\n  forl_ {chain} (fun v_candidates v_filter => apply_filter v_filter v_candidates) v_candidates.\n")
-    fn = find_def(mod, "get_seeds", "SproutMechanism")
-    body = [s_ for s_ in fn.body if not (isinstance(s_, ast.Expr) and isinstance(s_.value, ast.Constant)) and not _is_bookkeeping(s_)]
-    want = ["candidates = self.candidates_generator(tree)", "candidates = self.apply_deme_filters(candidates, tree)", "candidates = self.apply_tree_filters(candidates, tree)",
-            "return {k: v for k, v in candidates.items() if candidates[k].individuals}"]
-    got = [ast.unparse(s_) for s_ in body]
-    if len(body) == 4 and isinstance(body[3], ast.Return) and isinstance(body[3].value, ast.DictComp):
-        dc = body[3].value
-        g = dc.generators[0] if len(dc.generators) == 1 else None
-        if g is not None and ast.unparse(g.iter) == "candidates.items()" and isinstance(g.target, ast.Tuple) and len(g.target.elts) == 2 \
-                and all(isinstance(x, ast.Name) for x in g.target.elts) and len(g.ifs) == 1:
-            kn, vn = (x.id for x in g.target.elts)
-            if ast.unparse(dc.key) == kn and ast.unparse(dc.value) == vn and ast.unparse(g.ifs[0]) in (f"candidates[{kn}].individuals", f"{vn}.individuals"):
-                got[3] = want[3]      # the parents left with at least one seed, however the variables are called
-    if got != want:
-        j = next((i for i, (x, y) in enumerate(zip(got, want)) if x != y), min(len(got), len(want)))
-        raise Unsupported(f"{MSRC}:{fn.lineno}: SproutMechanism.get_seeds, apart from the plotting history, is not generator -> deme filters -> tree filters -> "
-                          f"non-empty entries (statement {j}: {got[j] if j < len(got) else 'missing'})")
+    fn = normalise(find_def(mod, "get_seeds", "SproutMechanism"))
+    tn = fn.args.args[1].arg if len(fn.args.args) == 2 else "?"
+    body = [s_ for s_ in fn.body if not (isinstance(s_, ast.Expr) and isinstance(s_.value, ast.Constant))]
+    if not body or not isinstance(body[-1], ast.Return) or body[-1].value is None:
+        raise Unsupported(f"{MSRC}:{fn.lineno}: SproutMechanism.get_seeds does not end with `return <seeds>`")
+    # everything but the assignments the result is computed from only feeds the plotting history
+    inl = Inliner(fn, MSRC)
+    rv = inl.inline(body[-1].value, body[-1])
+    chain = f"self.apply_tree_filters(self.apply_deme_filters(self.candidates_generator({tn}), {tn}), {tn})"
+    shape = ast.unparse(canon(rv)).replace(chain, "C")
+    accepted = {"{_c0: _c0_1 for _c0, _c0_1 in C.items() if C[_c0].individuals}", "{_c0: _c0_1 for _c0, _c0_1 in C.items() if _c0_1.individuals}",
+                "{_c0: C[_c0] for _c0 in C.keys() if C[_c0].individuals}", "{_c0: C[_c0] for _c0 in C if C[_c0].individuals}"}
+    if shape not in accepted:
+        raise Unsupported(f"{MSRC}:{fn.lineno}: SproutMechanism.get_seeds does not return the entries that still have a seed of tree_filters(deme_filters(generator(tree))): {shape[:200]}")
+    used_names = set()
+
+    def deps(name, before):
+        """the assignments (to plain names) the value of `name` at statement `before` is computed from"""
+        for s_ in body:
+            if s_ is before:
+                break
+            t_ = s_.targets[0] if isinstance(s_, ast.Assign) and len(s_.targets) == 1 else (s_.target if isinstance(s_, ast.AnnAssign) else None)
+            if isinstance(t_, ast.Name) and t_.id == name:
+                used_names.add(id(s_))
+                for n_ in ast.walk(s_.value):
+                    if isinstance(n_, ast.Name) and n_.id != name:
+                        deps(n_.id, s_)
+                    elif isinstance(n_, ast.Name):
+                        deps(name, s_)
+    for n_ in ast.walk(body[-1].value):
+        if isinstance(n_, ast.Name):
+            deps(n_.id, body[-1])
+    for s_ in body[:-1]:
+        if id(s_) in used_names:
+            continue
+        if not _is_bookkeeping(s_):
+            raise Unsupported(f"{MSRC}:{s_.lineno}: SproutMechanism.get_seeds: a statement that is neither part of generator -> deme filters -> tree filters nor plotting history: {ast.unparse(s_)[:120]}")
     out.append("Definition gen_get_seeds (deme_filter_chain tree_filter_chain : list F) : D cmap :=\n"
                "  v_candidates <- generator ;;\n  v_candidates <- gen_apply_deme_filters deme_filter_chain v_candidates ;;\n"
                "  v_candidates <- gen_apply_tree_filters tree_filter_chain v_candidates ;;\n"
